@@ -115,3 +115,9 @@ claim("C17",
   "For every generated document ToV3 must succeed, its result must pass validation and describe the same API; converting back must describe that API again with every reference at a Swagger 2 location. Differences are reported as the model path of the first lost / invented / changed element.",
   "Trusted: the two extractors (props/c17/model.go, written against the two specifications), one-level dereferencing of shared components, the choice of what is not part of the model (collectionFormat, parameter descriptions, x- bookkeeping extensions). One open finding (shared formData parameter comes back as a definition), excluded by construction.",
   "DESIGN.md#c17")
+
+claim("C15",
+  "randomised concurrency testing under the Go race detector: rapid-generated workloads (2-16 goroutines x 10-60 operations from FindRoute on both routers, ValidateRequest, ValidateResponse, VisitJSON in three modes and schema generation) over one shared validated document and its routers, released behind a barrier with GOMAXPROCS in {2,4,16}; first-use paths are forced by per-case fresh patterns and Go types; oracle = race detector (halt on error) + verdict equality with a sequential run on a second copy + before/after serialisation of the shared document",
+  "No data race may be reported, every concurrent call must return the verdict (including the forwarded body and query) it returns when run alone on a document loaded from the same bytes, and the shared document must serialise identically before and after the concurrent phase - so a validation that writes into the shared document is caught even when the detector sees no conflicting pair.",
+  "The race detector only reports races between accesses that actually executed, and only for the interleavings that occurred: 'all interleavings' is sampled, not covered. A race report aborts the shard and is kept as text (not shrunk, not deterministically replayable). Verdict and mutation violations are ordinary replayable cases.",
+  "DESIGN.md#c15")
